@@ -180,6 +180,50 @@ fn c07_sorter_equals_sort_and_merge() {
             runs += 1;
         }
     }
+    // a merge function that sees everything C07 fixes: it joins with '|' (the number and order of the values of a key, empty ones
+    // included, is visible in the output), returns a lone value unchanged, is associative, and refuses values of another key
+    // (every non-empty value starts with the hex of its key and ':'). Stable algorithm, groups spanning a spill.
+    #[derive(Clone, Copy)] struct KeyedJoin;
+    impl MergeFunction for KeyedJoin { type Error = std::convert::Infallible;
+        fn merge<'a>(&self, key: &[u8], values: &[Cow<'a, [u8]>]) -> Result<Cow<'a, [u8]>, Self::Error> {
+            if values.len() == 1 { return Ok(values[0].clone()); }
+            let tag = format!("{}:", hex(key)).into_bytes();
+            for v in values { for part in v.split(|b| *b == b'|') { if !part.is_empty() && !part.starts_with(&tag) {
+                return Ok(Cow::Owned(format!("WRONG-KEY: merge called for key {} with a value of another key ({}...)", hex(key), String::from_utf8_lossy(&part[..part.len().min(24)])).into_bytes())); } } }
+            let mut out = vec![]; for (i, v) in values.iter().enumerate() { if i > 0 { out.push(b'|'); } out.extend_from_slice(v); }
+            Ok(Cow::Owned(out)) } }
+    let kkeys: Vec<Vec<u8>> = vec![vec![], b"a".to_vec(), b"a\0".to_vec(), b"ab".to_vec(), b"b".to_vec(), vec![0xff], vec![0xff, 0xff], b"filler".to_vec()];
+    for (max_chunks, par) in [(1usize, false), (2, true), (25, false)] {
+        let mut inserts: Vec<(Vec<u8>, Vec<u8>)> = vec![];
+        let n = if profile_dev() { 900 } else { 3000 };
+        for i in 0..n { let k = kkeys[rng.below(7) as usize].clone(); let v = if rng.below(10) < 3 { vec![] } else { format!("{}:{}", hex(&k), i).into_bytes() };
+            inserts.push((k, v));
+            if i == n / 3 || i == 2 * n / 3 { let mut f = b"66696c6c6572:".to_vec(); f.resize(6 * 1024 * 1024, b'z'); inserts.push((b"filler".to_vec(), f)); } } // 2 x 6 MiB: a spill in the middle
+        let mut want: BTreeMap<Vec<u8>, Vec<Vec<u8>>> = BTreeMap::new();
+        for (k, v) in &inserts { want.entry(k.clone()).or_default().push(v.clone()); }
+        let want_out: Entries = want.iter().map(|(k, vs)| (k.clone(), if vs.len() == 1 { vs[0].clone() } else { vs.join(&b'|') })).collect();
+        for route in 0..3 {
+            let mut b = Sorter::builder(KeyedJoin);
+            b.dump_threshold(0).allow_realloc(false).max_nb_chunks(max_chunks).sort_algorithm(SortAlgorithm::Stable).sort_in_parallel(par);
+            let mut s = b.chunk_creator(CursorVec).build();
+            for (k, v) in &inserts { s.insert(k, v).unwrap_or_else(|e| cex(format!("C07 insert failed: {}", e))); }
+            let mut got: Entries = vec![];
+            match route {
+                0 => { let mut it = s.into_stream_merger_iter().unwrap_or_else(|e| cex(format!("C07 sorter failed: {}", e))); while let Some((k, v)) = it.next().unwrap_or_else(|e| cex(format!("C07 sorter failed: {}", e))) { got.push((k.to_vec(), v.to_vec())); } }
+                1 => { let mut w = grenad::Writer::memory(); s.write_into_stream_writer(&mut w).unwrap_or_else(|e| cex(format!("C07 sorter failed: {}", e))); let bytes = w.into_inner().unwrap();
+                       got = decode_file(&bytes, None).unwrap_or_else(|e| cex(format!("C07 written file malformed: {}", e))).entries; }
+                _ => { let cursors = s.into_reader_cursors().unwrap_or_else(|e| cex(format!("C07 sorter failed: {}", e))); let mut mb = Merger::builder(KeyedJoin); mb.extend(cursors);
+                       let mut it = mb.build().into_stream_merger_iter().unwrap(); while let Some((k, v)) = it.next().unwrap() { got.push((k.to_vec(), v.to_vec())); } }
+            }
+            if got != want_out {
+                let d = got.iter().zip(want_out.iter()).position(|(a, b)| a != b);
+                let show = |e: Option<&(Vec<u8>, Vec<u8>)>| e.map(|e| format!("key {} -> {:?}", hex(&e.0), String::from_utf8_lossy(&e.1[..e.1.len().min(90)]).to_string()));
+                cex(format!("C07 with a merge function that joins with '|' and checks keys: output differs from the merge of each key's values in insertion order (stable algorithm, {} inserts of which ~30% empty values, 2 x 6 MiB filler forcing a spill, max_nb_chunks={} parallel={} route {}): {} keys vs {}; first difference: got {:?} want {:?}",
+                    inserts.len(), max_chunks, par, route, got.len(), want_out.len(), show(d.and_then(|i| got.get(i))), show(d.and_then(|i| want_out.get(i)))));
+            }
+            runs += 1;
+        }
+    }
     stat("runs", runs); stat("runs_with_spills", spilled_runs);
     assert!(spilled_runs > 0);
 }
